@@ -96,6 +96,11 @@ package handlers
 //@   requires [wg] wg != nil
 //@ func (*readCommand).readGlob
 //@   requires [regex-usable] len(re.flags) >= 1 && implies(re.flags[0] == regex.Default || re.flags[0] == regex.Invert, re.re != nil)
+//@   bind cleaned == filepath.Clean
+//@   bind matched == filepath.Glob
+//@   at-call filepath.Clean [the-requested-glob] arg0 == old(glob)
+//@   at-call filepath.Glob [matches-the-cleaned-glob] arg0 == cleaned
+//@   at-call readFiles [ids-from-the-glob-that-matched] arg4 == cleaned && arg3 == matched0
 //@ func (*readCommand).readFiles
 //@   requires [regex-usable] len(re.flags) >= 1 && implies(re.flags[0] == regex.Default || re.flags[0] == regex.Invert, re.re != nil)
 //@   requires [same-depth] forall(i, 0, len(paths), uf_strcount(paths[i], "/") >= uf_strcount(glob, "/"))
@@ -119,6 +124,8 @@ package handlers
 //@   at-call handleCommand$1 [watcher-cancels-this-command] captured_cancel == cancel
 //@   at-call handleCommand$1 effect g_watched == 1
 //@   at-call dynamic: [session-end-cancels-the-command] g_watched == 1
+//@   bind decoded == config.DeserializeOptions
+//@   at-call handleOptions [only-options-that-were-sent] arg1 == decoded0
 //@ func (*baseHandler).shutdown$1
 //@   requires [captured] h != nil
 //@ func (*baseHandler).handleOptions$1
